@@ -2020,12 +2020,14 @@ impl<'a> Ctx<'a> {
                 };
 
                 let val = if let Some(e) = value.next() {
-                    let Some(result) = e
-                        .parse()
-                        .ok()
-                        .and_then(|e| 10_u64.checked_pow(e))
-                        .and_then(|e| base.checked_mul(e))
-                    else {
+                    let Some(result) = e.parse().ok().and_then(|e| {
+                        // `0e20` is still zero, even though 10^20 itself is too big
+                        if base == 0 {
+                            Some(0)
+                        } else {
+                            10_u64.checked_pow(e).and_then(|e| base.checked_mul(e))
+                        }
+                    }) else {
                         self.diagnostics.push(LoweringDiagnostic {
                             kind: LoweringDiagnosticKind::OutOfRangeIntLiteral,
                             range: int_literal.range(self.tree),
